@@ -55,8 +55,9 @@ I_Selection(cs, l) == { w \in Win : I_KeepFrom(w, cs, l, 1) }
 PeakOf(w, cs) == Max({ Max(RangeOf(Chunk(w, CompIdx(c)))) : c \in RangeOf(cs) })
 Overall(cs)   == Max({ PeakOf(w, cs) : w \in Win })
 MV(w, cs, t)  == IF t[2] THEN Q(PeakOf(w, cs), Overall(cs)) ELSE R(PeakOf(w, cs))
-P_MaxSelections(cs, t) == { S \in SUBSET Win : (\A w \in Win : RLt(MV(w, cs, t), t[1]) => w \in S)
-                                               /\ (\A w \in S : RLe(MV(w, cs, t), t[1])) }
+\* "below the threshold" is decided exactly also at equality: the quotient of two floats that equals the threshold is
+\* computed as the threshold (correctly rounded division, x/x = 1), so a window ON the threshold is not kept
+P_MaxSelections(cs, t) == { { w \in Win : RLt(MV(w, cs, t), t[1]) } }
 I_MaxSelection(cs, t) == { w \in Win : RLt(MV(w, cs, t), t[1]) }
 
 Init == /\ pat \in [Win -> [1..3 -> 1..Len(Patterns)]]
